@@ -30,6 +30,7 @@ IMPORTS = "From DJC Require Import Lib.Base Lexer.Model Stock.Model."
 UTIL = os.path.join(os.path.dirname(os.path.abspath(__file__)), "c10_util.py")
 WORKDIR = os.path.join(C.WORK, "C10")
 TRIGGER_SHARED = "c10-blockcontext-shared"
+TRIGGER_LAYER = "c10-slot-render-layer"
 
 
 # ---------------------------------------------------------------------------------------------
@@ -303,14 +304,26 @@ def gen_family_programs(chk, n):
         g = G.Gen(rng, mode, ncomp=rng.choice([1, 2, 2, 3]), collide=rng.choice([0.0, 0.3]), provide=rng.choice([0.0, 0.0, 0.3]),
                   errors=rng.choice([0.0, 0.0, 0.05]), depth=rng.choice([2, 3]))
         prog = g.program()
-        collide = rng.random() < 0.25
-        fp = U.make_family_program(rng, prog, "u%d" % tries, collide=collide)
+        regime = rng.choice(["any", "any", "page-only", "page-only", "comps-shallow", "comps-shallow", "shared-names", "shared-names"])
+        collide = regime == "shared-names"
+        targets = ["page"] + [c for c, _ in prog["lib"]]
+        if regime == "page-only":
+            which, knobs = {"page"}, {}
+        elif regime == "comps-shallow":
+            which = {t for t in targets[1:] if rng.random() < 0.7} or {targets[1]}
+            if rng.random() < 0.5:
+                which.add("page")
+            knobs = {"skip_slot_bodies": True, "p_include": 0.0}
+        else:
+            which, knobs = None, {}
+        fp = U.make_family_program(rng, prog, "u%d" % tries, collide=collide, which=which, knobs=knobs)
+        fp["regime"] = regime
         if not fp["stats"]:
             continue
         flat = U.flatten_family_program(fp)
         if U.norm(flat["page"]) != U.norm(prog["page"]) or any(U.norm(a[1]["tpl"]) != U.norm(b[1]["tpl"]) for a, b in zip(flat["lib"], prog["lib"])):
             raise C.HarnessError("harness bug: flattening the generated family does not give back the program")
-        out.append({"fp": fp, "flat": {k: prog[k] for k in ("lib", "page", "ctx", "mode")}, "collide_names": collide,
+        out.append({"fp": fp, "flat": {k: prog[k] for k in ("lib", "page", "ctx", "mode")},
                     "page_named": rng.random() < 0.5, "leaf_named": rng.random() < 0.3, "features": sorted(G.features(prog))})
     return out
 
@@ -318,7 +331,8 @@ def gen_family_programs(chk, n):
 def part_b2(chk, thorough):
     cases = []
     for c in load_corpus_b():
-        cases.append({"fp": c["fp"], "flat": c["flat"], "collide_names": True, "page_named": c.get("page_named", False),
+        c["fp"]["regime"] = "corpus"
+        cases.append({"fp": c["fp"], "flat": c["flat"], "page_named": c.get("page_named", False),
                       "leaf_named": c.get("leaf_named", False), "features": [], "corpus_file": c["corpus_file"]})
     cases += gen_family_programs(chk, 12000 if thorough else 2000)
     for i, c in enumerate(cases):
@@ -336,25 +350,39 @@ def part_b2(chk, thorough):
         o = obs[c["id"]]
         fp = U.norm(c["fp"])
         trig = U.shares_block_context(fp)
+        trig2 = U.slot_layer_class(fp)
         fam_out, flat_out = tuple(o["family"]), tuple(o["flat"])
         st = set(fp["stats"])
         nontriv = bool(st & {"block-override", "block-three", "block-super-pre", "block-super-post", "block-super-mid", "block-skip"}) \
             and "comp-nested" in c["features"] and any(f[1]["chain"] for f in fp["lib"]) and flat_out[0] == "ok"
         chk.count(("b2", json.dumps(fp, sort_keys=True)), nontriv,
-                  kind="b2:%s:%s%s" % (fp["mode"], "names-shared" if c["collide_names"] else "names-unique", ":trigger" if trig else ""),
+                  kind="b2:%s:%s%s%s" % (fp["mode"], fp.get("regime", "corpus"), ":shared-bc-class" if trig else "", ":slot-layer-class" if trig2 else ""),
                   sample={"part": "b2", "mode": fp["mode"], "page_family": U.fam_templates(fp["page"], "page")[0] or U.fam_templates(fp["page"], "page")[2],
                           "output": flat_out} if nontriv and c["id"] % 211 == 3 else None)
+        if "other:Timeout" in (fam_out[1], flat_out[1]):
+            stats["timeouts_skipped"] = stats.get("timeouts_skipped", 0) + 1
+            continue
         if flat_out[0] == "err" and fam_out == flat_out:
             stats["errors_equal"] += 1
+        if c.get("corpus_file"):
+            stats.setdefault("corpus", {})[c["corpus_file"]] = "equal" if fam_out == flat_out else "differs: family %r, flattened %r" % (fam_out[1][:80], flat_out[1][:80])
         if trig:
             stats["in_trigger_class"] += 1
+        if trig2:
+            stats["in_slot_layer_class"] = stats.get("in_slot_layer_class", 0) + 1
+        if not trig and not trig2:
+            stats["outside_both_classes"] = stats.get("outside_both_classes", 0) + 1
         if fam_out != flat_out:
             replay = {"part": "b2", "fp": fp, "flat": U.norm(c["flat"]), "page_named": c["page_named"], "leaf_named": c["leaf_named"],
-                      "family_output": fam_out, "flattened_output": flat_out, "trigger_detail": trig, "corpus_file": c.get("corpus_file")}
+                      "family_output": fam_out, "flattened_output": flat_out, "trigger_detail": [trig, trig2], "corpus_file": c.get("corpus_file")}
             if trig:
                 stats["known_reproduced"] += 1
                 chk.fail(TRIGGER_SHARED, "component whose template family declares blocks rendered while another family's BlockContext is current: "
                          "family renders differently from the flattened program", replay)
+            elif trig2:
+                stats["slot_layer_reproduced"] = stats.get("slot_layer_reproduced", 0) + 1
+                chk.fail(TRIGGER_LAYER, "block tag rendered through a slot on the wrong render-context layer: family renders differently from "
+                         "the flattened program", replay)
             else:
                 chk.fail("family-not-flattened", "a program written with extends/block/include renders differently from its hand-flattened program", replay)
         # tie the harness's flattening to Stock/Model.v flatten: per family, other tags abstracted
